@@ -27,8 +27,9 @@ func main() {
 	prop := flag.String("prop", "", "property id (C01..C20), comma list, or 'all'")
 	tier := flag.String("tier", "quick", "quick | thorough")
 	dump := flag.String("dump", "", "debug: print edge facts of the named function")
+	funcs := flag.Bool("funcs", false, "print the function table (input of tool/known_funcs.txt)")
 	flag.Parse()
-	if *prop == "" && *dump == "" {
+	if *prop == "" && *dump == "" && !*funcs {
 		fmt.Println("usage: liskcheck -prop Cnn [-tier quick|thorough] [-repo /repo]")
 		os.Exit(2)
 	}
@@ -36,6 +37,15 @@ func main() {
 	if err != nil {
 		fmt.Println("BROKEN: cannot analyse", *repo, "-", err)
 		os.Exit(2)
+	}
+	theProgram = p
+	if *funcs {
+		for _, fn := range p.OwnFuncs {
+			if fn.Parent() == nil && fn.Synthetic == "" {
+				fmt.Println(FuncKey(fn))
+			}
+		}
+		return
 	}
 	if *dump != "" {
 		dumpFunc(p, *dump)
